@@ -6,8 +6,9 @@ use super::*;
 #[kani::proof]
 #[kani::unwind(10)]
 fn c18_perm() {
-    let r: u8 = kani::any();
-    let f: u8 = kani::any();
+    let mut dr = crate::verif_shim::Draw::new();
+    let r: u8 = dr.u8();
+    let f: u8 = dr.u8();
     let required = PermissionMask::from_bits(r);
     let granted = PermissionMask::from_bits(f);
     let got = required.is_injectable_by(granted);
